@@ -10,7 +10,8 @@ Three layers, all driven by ctx.rng:
 """
 import itertools
 import math
-from fractions import Fraction as F
+from fractions import Fraction
+F = Fraction
 
 from .. import gen
 from ..common import cnat, cq, cbool, clist, copt, safe_coq_eval
@@ -68,7 +69,18 @@ def pat_lit(n_row, entries):
 
 
 def mspec(n_row, n_col, entries, dtype='float'):
-    return {'shape': [n_row, n_col], 'coo': [[i, j, w] for (i, j, w) in entries], 'dtype': dtype, 'fmt': 'csr'}
+    return {'shape': [n_row, n_col], 'coo': [[i, j, float(w) if isinstance(w, Fraction) else w] for (i, j, w) in entries],
+            'dtype': dtype, 'fmt': 'csr'}
+
+
+TINY = Fraction(1, 2 ** 40)
+
+
+def tiny_rows(rng, n_row, entries, symmetric):
+    """The same graph in other units: the out-weights of some rows (of every row when the graph must stay symmetric) multiplied by
+    2^-40.  The transition matrix D^-1 A of a directed graph does not change; a row of total weight 1e-12 is not a sink."""
+    rows = set(range(n_row)) if symmetric else {i for i in range(n_row) if rng.random() < 0.5}
+    return sorted((i, j, Fraction(w) * TINY if i in rows else w) for (i, j, w) in entries), rows
 
 
 def block(n_row, n_col, entries):
@@ -423,8 +435,13 @@ def _run(ctx, rng, quick, nmax, threads_set, impl):
         form = rng.choice(['array', 'dict', 'none'] + (['rowcol', 'rowcol'] if bip else []))
         kw, lits, y = make_restart(rng, r, c, bip, form)
         force_bip = bip and r == c
-        truth = exact_pagerank(n, adj, alpha, y)
         dtype = 'int' if rng.random() < 0.25 else 'float'
+        if dtype == 'float' and gi % 5 == 2:
+            ent, scaled = tiny_rows(rng, r, ent, symmetric=(not bip and is_sym(ent)))
+            if scaled:
+                fam += '_tinyrows'
+                n, adj = (block(r, c, ent) if bip else (r, ent))
+        truth = exact_pagerank(n, adj, alpha, y)
         for solver in SOLVERS:
             if solver == 'lanczos' and n < 3:
                 continue
